@@ -769,6 +769,10 @@ fn looks_like_artifact_id(value: &str) -> bool {
     value.len() == 64 && value.chars().all(|ch| ch.is_ascii_hexdigit())
 }
 
+#[cfg(kani)]
+#[path = "/verif/harness/rip-tui/state.rs"]
+mod verif_kani;
+
 #[cfg(test)]
 mod tests {
     use super::*;
